@@ -45,7 +45,7 @@ def _build_model_first():
         pass
 
 
-if "--no-coq" not in sys.argv:
+if "--no-coq" not in sys.argv and "--replay" not in sys.argv and os.path.basename(sys.argv[0]).startswith("check"):
     _build_model_first()
 
 # a run against a scratch checkout (VERIF_REPO) must not leave that checkout's fragment in a shared tree
@@ -142,7 +142,7 @@ def _other_build(cfg, wbits, cases, exes, oracle, hist, failures, nontrivial):
 def extra_phase(tier, seed, exes, oracle):
     hist = {}
     for name, st in R3_STATUS.items():
-        hist["translator_c02_r3:%s:%s" % (name, st.split(" ", 1)[0])] = 1
+        hist["TRANSLATOR_C02_R3:%s:%s" % (name, st.split(" ", 1)[0])] = 1
     for name, st in R4_STATUS.items():
         hist["TRANSLATOR_C02_R4:%s:%s" % (name, st.split(" ", 1)[0])] = 1
     allok = all(st == "ok" for st in R3_STATUS.values())
